@@ -27,6 +27,12 @@ CHECKS = {
  "C10": dict(cat="proof", tech="machine-checked proof in Coq + extracted-model/implementation correspondence + strace-captured save protocol with materialised crash states",
    text="8 Coq theorems: decode(encode(s)) = s for every well-formed snapshot (all value shapes, arbitrary nesting up to the limit, any valid UTF-8 names; mutual induction over values, element lists and field lists); the temp-file + fsync + rename protocol leaves the old or the new contents at every crash prefix incl. cut writes, while truncate-in-place is refuted; decoded values never nest deeper than the limit; capacity reservations never exceed the remaining bytes, the unbounded reservation is refuted. Tied to retain.rs through FileRetainStore::store/load on generated snapshots and hostile files (under an address-space limit), and by capturing the real syscall sequence of store() with strace, materialising every crash state on disk and loading it with the real code.",
    note="Kernel crash semantics beyond 'a prefix of the issued syscalls survives' are assumed, not modelled."),
+ "C01": dict(cat="proof", tech="machine-checked proof in Coq (type soundness of a model of the interpreter) + extracted-model/implementation correspondence on generated programs",
+   text="11 Coq theorems about a faithful model of the dynamically typed interpreter (eval/ops.rs, numeric.rs, eval/stmt.rs, literal lowering) on the ST core (BOOL + 8 integer kinds; assignment, IF, CASE, FOR, WHILE, REPEAT, EXIT, CONTINUE, RETURN): every program accepted by the strict discipline T evaluates each cycle to Ok, a value-dependent fault or non-termination, never a static-class fault or panic, for any number of cycles and inputs - unconditionally for programs with typed literals (the code as it is), and for all T programs once assignments convert to the target type; witnesses refute the unrepaired variants (negation panic, FOR increment panic, RETURN in PROGRAM, unsigned CASE selector, negative literal in unsigned context, untyped literals reaching TypeMismatch). The model is tied to the code by running thousands of generated programs through the real parser, HIR gate, lowering and interpreter and comparing every variable with its type tag after every cycle.",
+   note="Proved core only: REAL, strings, date/time, arrays, structs, FUNCTION/FB calls and call frames are outside the model; T is a subset of the checker's accepted set. One known finding (assign-uncoerced-static-fault)."),
+ "C03": dict(cat="proof", tech="machine-checked proof in Coq (storage-typing preservation) + extracted-model/implementation correspondence with type-tag dumps",
+   text="6 Coq theorems: on the same interpreter model, every cycle of every T-typed program preserves 'each variable holds its declared kind, in range' across any sequence of cycles and declaration-conforming external writes - for programs with typed literals on the code as it is, and for all T programs with the converting assignment; per write path lemmas (assignment, FOR control update, external write); the store-as-is assignment is refuted by a witness. Tied to the code by dumping all variables with their runtime type tags after every cycle of generated programs.",
+   note="Known finding assign-uncoerced (the unedited suite pins the defect, so it cannot be repaired by a fix: commit). I/O latch typing is covered by C07; debugger writes and restart are outside this model."),
 }
 REASON_TODO = "check not built yet (work in progress; see DESIGN.md §5 order of work)"
 NA = {}
